@@ -174,9 +174,15 @@ def check(case, ctx):
     if ff is None:
         clock = FakeClock(case["word"], case["n_trial"])
         VMOD.time = clock
+    from vf import lifecycle
     try:
         with ctx.lib("fit"):
-            v.fit(X)
+            if clock is not None:
+                # the injected clock is module-level state owned by this call: no decoy fits while it is installed
+                with lifecycle.suspended():
+                    v.fit(X)
+            else:
+                v.fit(X)
     finally:
         VMOD.time = saved
     if clock is not None:
